@@ -11,6 +11,9 @@
 (*            deleted objects, changes already emitted to the connection   *)
 (*                                                                         *)
 (* SessionClass = "readonly" : flush is a no-op, commit raises (the code)  *)
+(*              = "readonly-autocommit" : the same on a connection in      *)
+(*                autocommit mode (negative control: statement-level       *)
+(*                writes reach the file at once)                           *)
 (*              = "plain"    : an ordinary session (negative control)      *)
 (*              = "flush-unless-new-or-dirty" : a guard that forgets       *)
 (*                pending deletions (second negative control)              *)
@@ -25,13 +28,14 @@ VARIABLES gdb, gs, extra,    \* file versions / extra directory entries
           sess, hist
 vars == <<gdb, gs, extra, sess, hist>>
 
-Closed == [open |-> FALSE, pending |-> NoPending, emitted |-> FALSE]
+Closed == [open |-> FALSE, pending |-> NoPending, emitted |-> FALSE, stmt |-> FALSE]
 
+ReadOnly == SessionClass \in {"readonly", "readonly-autocommit"}
 HasPending(s) == s.pending.new \/ s.pending.dirty \/ s.pending.deleted
 
 \* does flush() emit the pending changes to the database connection?
 FlushEmits(s) ==
-  CASE SessionClass = "readonly" -> FALSE
+  CASE SessionClass \in {"readonly", "readonly-autocommit"} -> FALSE
     [] SessionClass = "plain" -> HasPending(s)
     [] SessionClass = "flush-unless-new-or-dirty" -> HasPending(s) /\ ~s.pending.new /\ ~s.pending.dirty
 
@@ -47,29 +51,32 @@ Step(c) ==
   /\ (c \in LibCmds \ {"lib_load", "lib_other_rw_reader", "lib_other_ro_reader"}) => sess.open
   /\ (c = "lib_load") => ~sess.open
   /\ LET s1 ==
-       CASE c = "lib_load" -> [open |-> TRUE, pending |-> NoPending, emitted |-> FALSE]
+       CASE c = "lib_load" -> [open |-> TRUE, pending |-> NoPending, emitted |-> FALSE, stmt |-> FALSE]
+         [] c \in StmtCmds -> [sess EXCEPT !.stmt = (SessionClass # "readonly-autocommit")]     \* goes into the open transaction
          [] c = "lib_edit" -> [sess EXCEPT !.pending.dirty = TRUE]
          [] c = "lib_add" -> [sess EXCEPT !.pending.new = TRUE]
          [] c = "lib_delete" -> [sess EXCEPT !.pending.deleted = TRUE]
          [] c \in {"lib_flush", "lib_query"} -> DoFlush(sess)                 \* queries autoflush
-         [] c = "lib_commit" -> IF SessionClass = "readonly" THEN sess ELSE [DoFlush(sess) EXCEPT !.emitted = FALSE]
-         [] c = "lib_begin_block" -> [DoFlush(sess) EXCEPT !.emitted = FALSE]   \* exit of `with session.begin()` commits what was emitted
-         [] c = "lib_rollback" -> [sess EXCEPT !.pending = NoPending, !.emitted = FALSE]
+         [] c = "lib_commit" -> IF ReadOnly THEN sess ELSE [DoFlush(sess) EXCEPT !.emitted = FALSE, !.stmt = FALSE]
+         [] c = "lib_begin_block" -> IF ReadOnly THEN sess                        \* begin() raises inside a transaction; otherwise the exit's commit raises
+                                      ELSE [DoFlush(sess) EXCEPT !.emitted = FALSE, !.stmt = FALSE]   \* exit of `with session.begin()` commits what was emitted
+         [] c = "lib_rollback" -> [sess EXCEPT !.pending = NoPending, !.emitted = FALSE, !.stmt = FALSE]
          [] c = "lib_close" -> Closed
          [] OTHER -> sess
          committed ==
-           \/ (c = "lib_commit" /\ SessionClass # "readonly" /\ (sess.emitted \/ FlushEmits(sess)))
-           \/ (c = "lib_begin_block" /\ (sess.emitted \/ FlushEmits(sess)))
+           \/ (c = "lib_commit" /\ ~ReadOnly /\ (sess.emitted \/ sess.stmt \/ FlushEmits(sess)))
+           \/ (c = "lib_begin_block" /\ ~ReadOnly /\ (sess.emitted \/ sess.stmt \/ FlushEmits(sess)))
+           \/ (c \in StmtCmds /\ SessionClass = "readonly-autocommit")
          outcome ==
            CASE c \in FailingCli -> {"error"}
              [] c \in CliCmds -> {"ok"}
-             [] c = "lib_commit" -> IF SessionClass = "readonly" THEN {"error"} ELSE {"ok"}
+             [] c = "lib_commit" -> IF ReadOnly THEN {"error"} ELSE {"ok"}
              [] c = "lib_begin_block" -> {"ok", "error"}
              [] OTHER -> {"ok"}
      IN /\ sess' = (IF c = "lib_begin_block" THEN [s1 EXCEPT !.pending = NoPending] ELSE s1)
         /\ gdb' = IF committed THEN gdb + 1 ELSE gdb
         /\ gs' = IF H5Mode = "r+" /\ c \in {"lib_read_sigs", "cli_dist_usedb", "cli_siginfo_db"} THEN gs + 1 ELSE gs
-        /\ extra' = extra
+        /\ extra' = IF sess'.stmt THEN {"journal"} ELSE {}
         /\ hist' = IF Record THEN Append(hist, [cmd |-> c, outcome |-> outcome, pending |-> sess'.pending, pending_any |-> (c = "lib_begin_block")])
                    ELSE hist
 
@@ -77,7 +84,9 @@ Next == \E c \in Cmds : Step(c)
 Spec == Init /\ [][Next]_vars
 
 \* ---------------------------------------------------------------- properties
-Immutable == gdb = 0 /\ gs = 0 /\ extra = {}
+\* the two files never change; the only extra directory entry ever seen is SQLite's rollback journal, and only while a
+\* statement-level write sits in the (never committed) transaction
+Immutable == gdb = 0 /\ gs = 0 /\ extra \subseteq {"journal"} /\ ("journal" \in extra => sess.stmt) /\ (~sess.open => extra = {})
 NeverEmits == ~sess.emitted
 \* generator mode
 Emit == (Record /\ Len(hist) = MaxDepth) => PrintT(ToJson(hist))
